@@ -66,7 +66,7 @@ def eigenval_assembly(o):
     s = tensor(o)
     for kind in KINDS:
         r, recs = with_eigs(o, 'principals', s, kind)
-        assert len(recs) == 1
+        o.shape(f'principals[{kind}] calls eigvalsh exactly once', len(recs) == 1, len(recs))
         w, comps = recs[0]
         for nm, a, b in zip(NAMES, comps, s):
             o.prove(f'slot {nm}[{kind}]', a == b)
